@@ -22,6 +22,9 @@ pub mod sfmt {
     pub static mut SEEN_NAME_OK: bool = false;
     pub static mut EXPECT_NAME: &str = "";
     pub static mut NEWTYPE_CALLS: usize = 0;
+    /// how the inner value was requested from the inner deserializer: 1 = with the inner type's own
+    /// `deserialize_<t>` method (what `<Inner as Deserialize>::deserialize` does), 2 = any other way
+    pub static mut INNER_REQ: u8 = 0;
 
     /// deserializer for the inner primitive value: hands `v` to whatever the inner type's visitor
     /// asks for, or fails with DErr::Inner when `ok` is false
@@ -54,9 +57,11 @@ pub mod sfmt {
             impl<'de> Deserializer<'de> for Prim<$t> {
                 type Error = DErr;
                 fn deserialize_any<V: Visitor<'de>>(self, visitor: V) -> Result<V::Value, DErr> {
+                    unsafe { INNER_REQ = 2; }
                     if self.ok { visitor.$visit(self.v) } else { Err(DErr::Inner) }
                 }
                 fn $de<V: Visitor<'de>>(self, visitor: V) -> Result<V::Value, DErr> {
+                    unsafe { INNER_REQ = 1; }
                     if self.ok { visitor.$visit(self.v) } else { Err(DErr::Inner) }
                 }
                 serde::forward_to_deserialize_any! { @OTHERS@ }
